@@ -7,11 +7,14 @@ use crate::runner::{Prop, Stats};
 use crate::scenario::Scenario;
 
 pub mod common;
+pub mod c02;
 pub mod c05;
+pub mod c06;
 pub mod c07;
+pub mod c08;
 
 pub fn all() -> Vec<&'static dyn Prop> {
-    vec![&c05::C05, &c07::C07]
+    vec![&c02::C02, &c05::C05, &c06::C06, &c07::C07, &c08::C08]
 }
 
 pub fn by_id(id: &str) -> Option<&'static dyn Prop> {
